@@ -308,11 +308,14 @@ TypeCases ==
                        Simple("Text", T("t", "WideText"), << <<"maxLen", 6>> >>),
                        Simple("PlusLevel", B("int"), << <<"minInc", 1>>, <<"maxIncPlus", 14>> >>),
                        Simple("PlusCode", B("string"), << <<"minLenPlus", 1>>, <<"maxLen", 3>> >>),
+                       \* xs:length is the only facet of the type (a PIN, a fixed-width code)
+                       Simple("CodeType", B("string"), << <<"len", 4>> >>),
                        Cx("RestrictedHolder", None,
                           << El("level", T("t", "LevelType"), 1, "1"), El("code", T("t", "ShortCode"), 0, "1"), El("tiny", T("t", "TinyCode"), 0, "1"),
                              El("narrow", T("t", "NarrowLevel"), 0, "1"), El("levels", T("t", "LevelType"), 0, "unb"),
                              El("small", T("t", "SmallText"), 0, "1"), El("subjectMember", T("t", "Text"), 0, "1"),
-                             El("tailMember", T("t", "PlusLevel"), 0, "1"), El("innerMember", T("t", "PlusCode"), 0, "unb") >>, <<>>) >>) >>,
+                             El("tailMember", T("t", "PlusLevel"), 0, "1"), El("innerMember", T("t", "PlusCode"), 0, "unb"),
+                             El("baseCode", T("t", "CodeType"), 0, "1") >>, <<>>) >>) >>,
    three_ns |-> << Xsd("main.xsd", "Unear", << <<"t", "Unear">>, <<"o", "Ufar">> >>,
                     << Imp("Ufar", "far.xsd"),
                        Cx("FocusType", None, << El("subjectMember", B("string"), 1, "1"), Ref("o", "GlobalThing", 0, "1") >>, <<>>) >>),
@@ -392,11 +395,18 @@ TypeCases ==
                         content |-> << SeqP(1, "1", << El("otherValue", B("string"), 1, "1"), El("midItem", T("n", "MidType"), 0, "1") >>) >>, attrs |-> <<>>],
                        Cx("MidType", None, << El("baseItem", B("string"), 1, "1") >>, <<>>) >>),
                       Xsd("v2.xsd", "Uv2", << <<"x", "Uv2">> >>, << Cx("FarType", None, << El("farValue", B("string"), 1, "1") >>, <<>>) >>) >>,
+   \* a namespace whose abbreviation would begin with "xml" (http://www.w3.org/2000/09/xmldsig# is the everyday one): XML
+   \* reserves such prefixes, a document that binds one is not namespace-well-formed (D42)
+   reserved_prefix |-> << Xsd("main.xsd", "Unear", << <<"t", "Unear">>, <<"o", "Uxml">> >>,
+                    << Imp("Uxml", "dsig.xsd"),
+                       Cx("FocusType", None, << El("subjectMember", T("o", "OtherType"), 1, "1"), El("tailMember", B("string"), 0, "1") >>, <<>>) >>),
+                      Xsd("dsig.xsd", "Uxml", << <<"x", "Uxml">> >>,
+                    << Cx("OtherType", None, << El("otherValue", B("string"), 1, "1") >>, << At("keyAttr", B("string"), "opt") >>) >>) >>,
    keywords |-> << Xsd("main.xsd", "Unear", NearX,
                     << Cx("kw_self", None, << El("kw_type", B("string"), 1, "1"), El("kw_match", B("int"), 0, "1"), El("kw_async", B("string"), 0, "unb"),
                                               El("kw_crate", B("boolean"), 1, "1") >>,
                           << At("kw_self", B("string"), "opt") >>) >>) >>]
-TypeLabels == IF Tier = "quick" THEN {"builtins_req", "builtins_vec", "text_builtins", "positions", "extension_near", "extension_far", "extension_far_user", "two_foreign", "deep_shared", "homonym_default", "prefix_scoped", "unqualified_form", "name_clash", "wide_extension", "choice_seq", "simple_restricted", "keywords", "three_ns", "sibling_collide"}
+TypeLabels == IF Tier = "quick" THEN {"builtins_req", "builtins_vec", "text_builtins", "positions", "extension_near", "extension_far", "extension_far_user", "two_foreign", "deep_shared", "homonym_default", "prefix_scoped", "unqualified_form", "name_clash", "wide_extension", "choice_seq", "simple_restricted", "keywords", "three_ns", "sibling_collide", "reserved_prefix"}
               ELSE DOMAIN TypeCases
 
 \* ---- WSDL shapes
@@ -440,6 +450,22 @@ WsdlCases ==
                          << Msg("request", << Part("auth", "tns", "AuthHeader"), Part("bodyPart", "tns", "GetItem") >>),
                             Msg("response", << Part("parameters", "tns", "GetItemResponse") >>) >>)
                     @@ [second_binding |-> "after", port12_first |-> TRUE]) >>,
+   \* another SOAP 1.1 binding of the same port type that no port refers to and that binds no header part (a legacy
+   \* binding kept in the file): the client is generated from the binding the service's port names (seed C05-f)
+   bindings_legacy |-> << Wsdl(ReqResp \o Headers, <<>>,
+                  Common(<< [n |-> "GetItem", action |-> "act",
+                             input |-> [msg |-> "request", headers |-> << Hdr("request", "auth") >>],
+                             output |-> [msg |-> "response", headers |-> <<>>]] >>,
+                         << Msg("request", << Part("auth", "tns", "AuthHeader"), Part("bodyPart", "tns", "GetItem") >>),
+                            Msg("response", << Part("parameters", "tns", "GetItemResponse") >>) >>)
+                    @@ [legacy_binding |-> "before"]) >>,
+   bindings_legacy2 |-> << Wsdl(ReqResp \o Headers, <<>>,
+                  Common(<< [n |-> "GetItem", action |-> "act",
+                             input |-> [msg |-> "request", headers |-> << Hdr("request", "auth") >>],
+                             output |-> [msg |-> "response", headers |-> << Hdr("response", "sess") >>]] >>,
+                         << Msg("request", << Part("auth", "tns", "AuthHeader"), Part("bodyPart", "tns", "GetItem") >>),
+                            Msg("response", << Part("parameters", "tns", "GetItemResponse"), Part("sess", "tns", "SessionHeader") >>) >>)
+                    @@ [legacy_binding |-> "after"]) >>,
    \* WSDL does not fix the order of soap:header and soap:body inside wsdl:input / wsdl:output
    headers_first |-> << Wsdl(ReqResp \o Headers, <<>>,
                   Common(<< [n |-> "GetItem", action |-> "act",
@@ -531,6 +557,28 @@ WsdlCases ==
                    [name |-> "svc.wsdl#2", kind |-> "inline", parent |-> "svc.wsdl", tns |-> "Uthird", xmlns |-> <<>>,
                     items |-> << ElemI("GetItemResponse", << El("itemName", B("string"), 1, "1") >>),
                                  Cx("OtherType", None, << El("otherValue", B("string"), 1, "1") >>, <<>>) >>] >>,
+   \* ... and the second leaves elementFormDefault at its default while the first sets it (each schema has its own)
+   two_inline_forms |-> << Wsdl(<< [k |-> "import", ns |-> "Uthird"],
+                             ElemI("GetItem", << El("itemId", B("string"), 1, "1"), El("subjectMember", T("ty", "OtherType"), 0, "1") >>) >>,
+                          << <<"ty", "Uthird">>, <<"sv", "Uv1">> >>,
+                  Common(<< [n |-> "GetItem", action |-> "act", input |-> [msg |-> "request", parts |-> "parameters", headers |-> <<>>],
+                             output |-> [msg |-> "response", parts |-> "parameters", headers |-> <<>>]] >>,
+                         << Msg("request", << Part("parameters", "sv", "GetItem") >>), Msg("response", << Part("parameters", "ty", "GetItemResponse") >>) >>))
+                    @@ [stns |-> "Uv1"],
+                   [name |-> "svc.wsdl#2", kind |-> "inline", parent |-> "svc.wsdl", tns |-> "Uthird", xmlns |-> <<>>,
+                    items |-> << ElemI("GetItemResponse", << El("itemName", B("string"), 1, "1") >>),
+                                 Cx("OtherType", None, << El("otherValue", B("string"), 1, "1") >>, <<>>) >>, unqualified |-> TRUE] >>,
+   \* the last inline schema holds nothing but an import (the everyday <xs:schema><xs:import .../></xs:schema>); the
+   \* imported file binds the WSDL's own prefix `tns` to ITS namespace and declares elements of the same names: the
+   \* message parts are resolved with the WSDL's bindings, not with what the last file read left behind (seed C09-f)
+   import_last |-> << Wsdl(ReqResp, <<>>,
+                  Common(<< [n |-> "GetItem", action |-> "act", input |-> [msg |-> "request", parts |-> "parameters", headers |-> <<>>],
+                             output |-> [msg |-> "response", parts |-> "parameters", headers |-> <<>>]] >>,
+                         << Msg("request", << Part("parameters", "tns", "GetItem") >>), Msg("response", << Part("parameters", "tns", "GetItemResponse") >>) >>)),
+                   [name |-> "svc.wsdl#2", kind |-> "inline", parent |-> "svc.wsdl", tns |-> "Usvc", xmlns |-> <<>>,
+                    items |-> << Imp("Ufar", "far.xsd") >>],
+                   Xsd("far.xsd", "Ufar", << <<"tns", "Ufar">> >>,
+                       << ElemI("GetItem", << El("farArg", B("string"), 1, "1") >>), ElemI("GetItemResponse", << El("farResult", B("int"), 1, "1") >>) >>) >>,
    \* body and header elements of one message in different namespaces, and the response in a namespace the request never uses
    mixed_ns |-> << Wsdl(<< Imp("Ufar", "far.xsd"), ElemI("GetItem", << El("itemId", B("string"), 1, "1") >>),
                            ElemI("AuthHeader", << El("token", B("string"), 1, "1") >>) >>, << <<"o", "Ufar">> >>,
@@ -625,7 +673,10 @@ Envelopes(x) == LET S == SetOf(x)
 
 CaseOf(x) == [prop |-> "CR", drv |-> "gen", label |-> x.label, kind |-> x.kind, start |-> SetOf(x).start, files |-> SetOf(x).files,
               expect |-> Expect(SetOf(x)), ops |-> OpsOf(x), service |-> IF x.kind = "wsdl" THEN "ItemService" ELSE "none",
-              infosets |-> Infosets(SetOf(x)), envelopes |-> Envelopes(x)]
+              infosets |-> Infosets(SetOf(x)), envelopes |-> Envelopes(x),
+              \* the binding the service's port names (and its SOAP 1.2 twin): what the reader binds for any other binding of
+              \* the file is not what the client is generated from
+              bindings |-> IF x.kind = "wsdl" THEN <<"ItemBinding">> ELSE <<>>]
 
 MCInit == c \in Space
 MCSpec == MCInit /\ [][UNCHANGED c]_vars
@@ -637,7 +688,7 @@ Emit == PrintT(<<"CASE", ToJson(CaseOf(c))>>)
 
 Vocab == [names |-> Names, tokens |-> TokTab,
           uris |-> [Unear |-> [uri |-> "http://zv.test/cr/near"], Ufar |-> [uri |-> "http://zv.test/cr/far"], Usvc |-> [uri |-> "http://zv.test/cr/service"],
-                    Uthird |-> [uri |-> "http://zv.test/cr/third"], Uv1 |-> [uri |-> "http://zv.test/cr/v1/types"], Uv2 |-> [uri |-> "http://zv.test/cr/v2/types"]],
+                    Uthird |-> [uri |-> "http://zv.test/cr/third"], Uxml |-> [uri |-> "http://zv.test/cr/xmldsig"], Uv1 |-> [uri |-> "http://zv.test/cr/v1/types"], Uv2 |-> [uri |-> "http://zv.test/cr/v2/types"]],
           texts |-> [addr |-> "http://127.0.0.1:1/zv/items", addr_slash |-> "http://127.0.0.1:1/zv/items/", act |-> "http://zv.test/cr/service/action"]]
 ASSUME PrintT(<<"VOCAB", ToJson(Vocab)>>)
 =======================================================================
